@@ -124,15 +124,11 @@ pub(crate) mod verif_e5 {
         }
     }
 
-    #[cfg_attr(kani, kani::proof)]
-    #[cfg_attr(kani, kani::unwind(258))]
-    #[cfg_attr(killingspark_zstd_rs_verif, no_mangle)]
-    pub fn e5_compress_structure() {
-        let bytes: [u8; 9] = vk::any();
-        let n: usize = vk::any();
-        vk::assume(n <= 9);
-        let chunk: usize = vk::any();
-        vk::assume(chunk >= 1 && chunk <= 9);
+    /// input length N and read fragmentation CHUNK are concrete per harness (symbolic loop bounds crash / exhaust CBMC); contents symbolic
+    pub fn e5_body<const N: usize, const CHUNK: usize>() {
+        let bytes: [u8; N] = vk::any();
+        let n = N;
+        let chunk = CHUNK;
         let mut c = new_compressor();
         c.set_source(Chunked { data: &bytes[..n], chunk });
         c.set_drain(Vec::new());
@@ -156,23 +152,43 @@ pub(crate) mod verif_e5 {
         core::mem::forget(c);
     }
 
+    macro_rules! e5 {
+        ($name:ident, $n:expr, $chunk:expr) => {
+            #[cfg_attr(kani, kani::proof)]
+            #[cfg_attr(kani, kani::unwind(12))]
+            #[cfg_attr(killingspark_zstd_rs_verif, no_mangle)]
+            pub fn $name() {
+                e5_body::<$n, $chunk>();
+            }
+        };
+    }
+    e5!(e5_empty, 0, 4);
+    e5!(e5_short_bytewise, 3, 1);
+    e5!(e5_exact_block, 4, 9);
+    e5!(e5_block_plus_one, 5, 2);
+    e5!(e5_two_blocks, 8, 3);
     /// the same statement built without the hash feature (flag absent, no trailer, same blocks)
     #[cfg(all(kani, not(feature = "hash")))]
     #[kani::proof]
-    #[kani::unwind(258)]
-    fn e5_compress_structure_nohash() {
-        e5_compress_structure();
+    #[kani::unwind(12)]
+    fn e5_nohash_block_plus_one() {
+        e5_body::<5, 2>();
+    }
+    #[cfg(all(kani, not(feature = "hash")))]
+    #[kani::proof]
+    #[kani::unwind(12)]
+    fn e5_nohash_exact_block() {
+        e5_body::<4, 4>();
     }
 
     /// reuse: a second compress() on the same object produces the frame a fresh object would (hash re-seeded, matcher reset)
     #[cfg_attr(kani, kani::proof)]
-    #[cfg_attr(kani, kani::unwind(258))]
+    #[cfg_attr(kani, kani::unwind(12))]
     #[cfg_attr(killingspark_zstd_rs_verif, no_mangle)]
     pub fn e5_compress_reuse() {
         let a: [u8; 5] = vk::any();
         let b: [u8; 5] = vk::any();
-        let (na, nb): (usize, usize) = (vk::any(), vk::any());
-        vk::assume(na <= 5 && nb <= 5);
+        let (na, nb): (usize, usize) = (5, 3);
         let mut c = new_compressor();
         c.set_source(Chunked { data: &a[..na], chunk: 5 });
         c.set_drain(Vec::new());
@@ -193,6 +209,11 @@ pub(crate) mod verif_e5 {
 }
 //@end
 //@harness e3_frame_header_roundtrip kind=proof fn=encoding::FrameHeader::serialize,encoding::FrameHeader::descriptor props=C15,C02,C14 tier=quick complete=yes witness=e3_frame_header_roundtrip timeout=1800
-//@harness e5_compress_structure kind=proof fn=FrameCompressor::compress props=C15,C02,C08 tier=quick bound="input <= 9 bytes, matcher spaces of 4 bytes, reader returning <= chunk bytes per call (chunk symbolic)" witness=e5_compress_structure timeout=2400
-//@harness e5_compress_reuse kind=proof fn=FrameCompressor::compress props=C02,C08 tier=quick bound="two frames of <= 5 bytes through one compressor" witness=e5_compress_reuse timeout=2400
-//@harness e5_compress_structure_nohash kind=proof fn=FrameCompressor::compress props=C18 tier=quick features=nohash bound="input <= 9 bytes, 4-byte spaces, hash feature off" timeout=2400
+//@harness e5_empty kind=proof fn=FrameCompressor::compress props=C15,C02,C08 tier=quick bound="input of 0 bytes (contents symbolic), matcher spaces of 4 bytes, reader returning <= 4 bytes per call" witness=e5_empty timeout=1800
+//@harness e5_short_bytewise kind=proof fn=FrameCompressor::compress props=C15,C02,C08 tier=quick bound="input of 3 bytes (contents symbolic), matcher spaces of 4 bytes, reader returning <= 1 bytes per call" witness=e5_short_bytewise timeout=1800
+//@harness e5_exact_block kind=proof fn=FrameCompressor::compress props=C15,C02,C08 tier=quick bound="input of 4 bytes (contents symbolic), matcher spaces of 4 bytes, reader returning <= 9 bytes per call" witness=e5_exact_block timeout=1800
+//@harness e5_block_plus_one kind=proof fn=FrameCompressor::compress props=C15,C02,C08 tier=quick bound="input of 5 bytes (contents symbolic), matcher spaces of 4 bytes, reader returning <= 2 bytes per call" witness=e5_block_plus_one timeout=1800
+//@harness e5_two_blocks kind=proof fn=FrameCompressor::compress props=C15,C02,C08 tier=quick bound="input of 8 bytes (contents symbolic), matcher spaces of 4 bytes, reader returning <= 3 bytes per call" witness=e5_two_blocks timeout=1800
+//@harness e5_compress_reuse kind=proof fn=FrameCompressor::compress props=C02,C08 tier=quick bound="two frames (5 and 3 bytes) through one compressor" witness=e5_compress_reuse timeout=1800
+//@harness e5_nohash_block_plus_one kind=proof fn=FrameCompressor::compress props=C18 tier=quick features=nohash bound="5 input bytes, 4-byte spaces, hash feature off" timeout=1800
+//@harness e5_nohash_exact_block kind=proof fn=FrameCompressor::compress props=C18 tier=quick features=nohash bound="4 input bytes, 4-byte spaces, hash feature off" timeout=1800
